@@ -121,20 +121,23 @@ type buildOpts struct {
 }
 
 type world struct {
-	name        string
-	docs        []doc
-	build       func(o buildOpts) PH
-	lexerKind   string // "text/scanner", "stateful", "generated"
-	hasGen      func() bool
-	junk        string // lexically valid suffix that no document can continue with
-	perRunDelim bool   // documents contain {D0} {D1} {D2} placeholders for per-run delimiters
-	stmtBuild   func(o buildOpts) PH // one-statement grammar for the resumption clause (optional)
+	name         string
+	docs         []doc
+	build        func(o buildOpts) PH
+	lexerKind    string // "text/scanner", "stateful", "generated"
+	hasGen       func() bool
+	junk         string               // lexically valid suffix that no document can continue with
+	perRunDelim  bool                 // documents contain {D0} {D1} {D2} placeholders for per-run delimiters
+	stmtBuild    func(o buildOpts) PH // one-statement grammar for the resumption clause (optional)
 	hasCallbacks bool
 }
 
 func (w *world) lookaheads() []int { return []int{0, 1, 2, participle.MaxLookahead, -1} }
 
 func applyCommon(o buildOpts, def lexer.Definition, opts []participle.Option) []participle.Option {
+	if def == nil && (o.narrow || o.wrap != nil) {
+		def = lexer.TextScannerLexer
+	}
 	if o.narrow {
 		def = narrowDef{def}
 	}
@@ -430,7 +433,7 @@ type bsPrint struct {
 	Expr *bsExpr `"PRINT" @@`
 }
 type bsExpr struct {
-	Left  *bsValue  `@@`
+	Left  *bsValue   `@@`
 	Right []*bsOpVal `@@*`
 }
 type bsOpVal struct {
